@@ -47,6 +47,7 @@ class Sub:
     quick: int = 200            # examples per shard, quick tier
     thorough: int = 1000        # examples per shard, thorough tier
     budget_s: float = 0         # soft wall budget per shard (0 = none); exceeding => inconclusive
+    shrink: bool = True         # False for sub-checks whose cases are too expensive to shrink
 
 
 @dataclasses.dataclass
@@ -282,7 +283,8 @@ def run_shard(args):
         test = settings(
             max_examples=n_examples, database=None, deadline=None, derandomize=False,
             report_multiple_bugs=False, suppress_health_check=list(HealthCheck),
-            phases=(Phase.generate, Phase.shrink), print_blob=False,
+            phases=(Phase.generate, Phase.shrink) if sub.shrink else (Phase.generate,),
+            print_blob=False,
         )(test)
         try:
             test()
